@@ -9,7 +9,7 @@ import io
 import itertools
 
 from vf import ref_header as H
-from vf.core import HarnessError, Tally
+from vf.core import vacuous, HarnessError, Tally
 
 LEVEL = "fault_enumeration"
 BODY = "<OFX><A>x</A></OFX>"
@@ -241,13 +241,13 @@ def run(ctx):
     faults(tally)
     if "refused" not in tally.outcomes or "valid-ok-v1" not in tally.outcomes or "valid-ok-v2" not in tally.outcomes:
         if not tally.fails:
-            raise HarnessError("vacuous: an outcome class was never observed")
+            vacuous(tally, "vacuous: an outcome class was never observed")
     tally.sample({"valid": {"version": 220, "security": "TYPE1", "old": full[0], "new": full[0][::-1]}})
     tally.sample({"corruption": "v1 text with CHARSET:UTF-8 (a token of ENCODING) must be refused"})
     tally.sample({"corruption": v1_text_corruptions()[-1][3]})
-    nfaults = tally.counts["evaluations"] - len(jobs)
+    nfaults = tally.counts.get("evaluations", 0) - len(jobs)
     cov = {
-        "evaluations": tally.counts["evaluations"],
+        "evaluations": tally.counts.get("evaluations", 0),
         "distinct_nontrivial": nfaults,
         "rule": f"valid: {len(versions)} versions (all supported + every 100..199) x security (None,NONE,TYPE1) x UIDs (default, 5 of length 36 jointly covering "
         "[A-Za-z0-9_-], every single character as a 1-character UID for supported versions) = " + str(len(jobs)) + " round trips; faults (non-trivial cases): "
